@@ -280,6 +280,11 @@ func genSqlr(r *Rng) *Enc {
 	db := openFake(st)
 	defer db.Close()
 	var res *dataframe.DataFrame
+	// a nil context is an accepted argument of the context readers (they substitute context.Background())
+	var ctx context.Context = context.Background()
+	if r.Chance(15) {
+		ctx = nil
+	}
 	status, _ := guard(func() error {
 		var err error
 		switch entry {
@@ -294,7 +299,7 @@ func genSqlr(r *Rng) *Enc {
 			if nilHandle {
 				h = nil
 			}
-			res, err = dataframe.FromSQLContext(context.Background(), h, query, nil, opts...)
+			res, err = dataframe.FromSQLContext(ctx, h, query, nil, opts...)
 		default:
 			var tx *sql.Tx
 			if !nilHandle {
@@ -307,7 +312,7 @@ func genSqlr(r *Rng) *Enc {
 			if entry == 2 {
 				res, err = dataframe.FromSQLTx(tx, query, nil, opts...)
 			} else {
-				res, err = dataframe.FromSQLTxContext(context.Background(), tx, query, nil, opts...)
+				res, err = dataframe.FromSQLTxContext(ctx, tx, query, nil, opts...)
 			}
 		}
 		return err
